@@ -77,6 +77,7 @@ class Ctx:
         self.exhaustive_parts = []
         self.action_cov = {}
         self.nrep = 0
+        self.validations = []
         kf = json.load(open(os.path.join(VERIF, 'known_findings.json')))
         self.findings = [f for f in kf.get('findings', []) if f.get('property') == pid]
 
@@ -197,6 +198,8 @@ class Ctx:
         events = read_ndjson(events_path)
         cases = read_ndjson(cases_path)
         bycid = {c['cid']: c for c in cases}
+        self.validations.append(dict(module=module, events=events_path, cases=cases_path, suite=suite))
+        json.dump(self.validations, open(os.path.join(self.out, 'validations.json'), 'w'))
         self.cases += len(cases)
         self.events += len(events)
         for e in events:
